@@ -127,7 +127,7 @@ func issuerFromForwardedOrHost(path string, c *issuerConfig) func(bool) (IssuerF
 
 func hostFromForwarded(r *http.Request, headers []string) (host string, ok bool) {
 	for _, header := range headers {
-		hosts, err := httpforwarded.ParseParameter("host", r.Header[header])
+		hosts, err := forwardedHosts(r.Header[header])
 		if err != nil {
 			log.Printf("Err: issuer from forwarded header: %v", err) // TODO change to slog on next branch
 			continue
@@ -137,6 +137,21 @@ func hostFromForwarded(r *http.Request, headers []string) (host string, ok bool)
 		}
 	}
 	return "", false
+}
+
+// forwardedHosts returns the host parameters of all field lines of a forwarding header.
+// Every line is parsed on its own: the parser stops at a trailing semicolon,
+// which would hide the hosts of the lines that follow.
+func forwardedHosts(lines []string) ([]string, error) {
+	var hosts []string
+	for _, line := range lines {
+		h, err := httpforwarded.ParseParameter("host", []string{line})
+		if err != nil {
+			return nil, err
+		}
+		hosts = append(hosts, h...)
+	}
+	return hosts, nil
 }
 
 func StaticIssuer(issuer string) func(bool) (IssuerFromRequest, error) {
